@@ -26,6 +26,8 @@ func init() {
 const cl = "server/commitlog."
 
 func runC01(c *eng.Ctx) {
+	c.Rule("R01.17", "K5")
+	ruleEncodeWritesTheKeyAsItIs(c)
 	// (shared with C08/C10) a reader recognises a replaced or removed segment whatever wraps the error on its way up
 	ruleSentinelIdentity(c, "R14.6", []string{cl + "(*Reader).ReadMessage", cl + "(*ReverseReader).ReadMessage"}, "the reader does not notice that the segment it was reading was replaced (compaction, truncation) or removed (retention): it fails instead of re-positioning itself and carrying on")
 
